@@ -374,3 +374,4 @@ MANIFEST = {
 }
 MANIFEST['text'] += (' ' + "Whole instances are also assembled by the generators' own create_instance (all ordered pairs of tie vectors on consecutive rows of both sides for n <= 4/5, hr and spa) and read back.")
 MANIFEST['text'] += (' ' + 'Drawn lists go up to 700 entries (more than 256 distinct ranks); a sparse kind assembles instances with 1001-2050 first-side agents whose numbers s, 256+s, 1000+s, 2000+s meet in short tied second-side lists.')
+MANIFEST['text'] += (' ' + 'Owners of the lists get upper quotas 0 and 1 as well; whole instances are also assembled with two projects per lecturer in blocks and interleaved.')
